@@ -2,6 +2,14 @@
 the evidence texts (rule, assumptions)."""
 
 PLAN = {
+    "C17": {
+        "quick": [
+            {"kind": "rapid", "test": "TestC17Hook", "checks": 100000},
+        ],
+        "thorough": [
+            {"kind": "rapid", "test": "TestC17Hook", "checks": 400000, "shards": 16},
+        ],
+    },
     "C08": {
         "quick": [
             {"kind": "rapid", "test": "TestC08Compose", "checks": 40000},
@@ -137,6 +145,7 @@ PLAN = {
 }
 
 RULES = {
+    "C17": "rapid: configuration (hook installed with probability 0.9: a scripted function over the SafeWriter-op universe that can also emit the verb and err.Error(); registered safe types) x error values (value/pointer/errors.New/named-kind errors, wrapping, nil-receiver, error+Stringer, error+Formatter, error+SafeFormatter, error+SafeMessager) x positions (top level under every verb and flag incl. invalid and non-ASCII verbs, %T/%p, the %w of HelperForErrorf, []interface{}, []error, map values, exported and unexported struct fields, pointer to struct, arrays, reflect.Value, under Safe(), under Unsafe()) x routes (Sprint, Sprintf, Fprintf, HelperForErrorf). Oracle: output with the hook == output of the same shape with every dispatched error replaced by an error+SafeFormatter stand-in whose SafeFormat runs the hook's script (both shapes share all other objects); the hook is not called in the stand-in run (i.e. never for SafeFormatter/SafeMessager errors, %T/%p, unexported fields, under Unsafe()); the multiset of (error, verb) hook calls equals the stand-in's SafeFormat calls and their number equals the number of dispatched positions; Unsafe(err) prints as without hook and fully enveloped. Non-trivial = hook installed, at least one dispatched error, and not bare top-level %v. Distinct = distinct specs (64-bit fingerprint).",
     "C08": "rapid: histories of 1-6 steps starting from a library-produced redactable r0 (Sprint/Sprintf of generated operands: envelopes, line feeds, escaped markers, empty); each step applies one of 31 re-print / join / container compositions (Sprint, Sprint of ToBytes, Sprintf with literals around any directive except %T/%p incl. flags, width, precision, '*', odd verbs; reflect.ValueOf; Safe(); Join/JoinTo with safe or unsafe delimiters on a builder and on a SafePrinter; StringBuilder.Print/Printf; printing a StringBuilder by value and by pointer; SafePrinter.Print/Printf; []RedactableString, [2]RedactableString, []interface{}, map values, struct fields exported / unexported / interface-typed, pointer to struct, %+v, %#v) and the result becomes the next r. Oracle per step: the result equals the literal concatenation of its pieces (identity for re-printing), and Redact / StripMarkers applied to the result equal the concatenation of their application to the pieces. Non-trivial = the redactable contains an envelope, an escaped marker or a line feed and the step is not bare %v/Sprint. Distinct = distinct specs (64-bit fingerprint).",
     "C15": "rapid: structured formats with 0-4 directives, each %w with probability 1/2 (flags, width, precision, '*'), operands at %w positions drawn from {error value, pointer error, errors.New, named-kind errors, wrapping error, nil-receiver error, error+Stringer, error+SafeFormatter, error+SafeMessager, Safe(err), Unsafe(err), untyped nil, string, int, Stringer, struct, missing}; other operands from the full or the fmt-compatible universe; optional error hook. Oracle: (E) returned error by the statement (sequential model: the first %w with an error operand is captured, any misuse clears it for good); (T1) no %w => text == Sprintf; (T2) text == per-directive Sprintf with the correct %w printed as %v and every other %w as the bad-verb report; (T3) for at most one %w and fmt-compatible operands: stripped text == fmt.Errorf(...).Error() escaped and error == errors.Unwrap. Non-trivial = at least one %w. Distinct = distinct specs (64-bit fingerprint).",
     "C16": "rapid: an argument list (full value universe, registered types, optional error hook) with a structured or chaotic format, printed through Sprint/Sprintf (reference), Fprint/Fprintf into a recording writer that succeeds, fails or writes short, HelperForErrorf (formats without %w), and embedded between 0-5 generated prefix and 0-4 suffix writer ops on a StringBuilder, on the SafePrinter of Sprintfn and on the SafePrinter of a SafeFormat method. Oracle: F variant = exactly one Write with the S variant's bytes and (n, err) as returned by the writer; embedded routes equal prefix-alone + S variant + suffix-alone after merging adjacent envelopes. Non-trivial = at least two operands or a non-basic operand, and the prefix leaves an envelope open or unescaped bytes pending in the outer buffer (observed through the hook). Distinct = distinct specs (64-bit fingerprint).",
@@ -167,6 +176,12 @@ HOOK_COMMITS = ["cf350cc"]
 NOT_APPLICABLE = {}
 
 CLAIMS = {
+    "C17": {
+        "text": "Differential testing against a stand-in: an error that is itself a SafeFormatter running the hook's script must be indistinguishable from a hooked error, in every position, under every verb, in whole-process runs per configuration; a call log pins 'exactly once, with the right error and verb' and 'never' for the excluded classes. Exploration; 100k cases per quick run.",
+        "design_ref": "DESIGN.md §4.17",
+        "note": "The scripted hook is nil-receiver safe (a hook that panics is covered by C11's composition model). SafeValue-marked errors are outside this check: the hook runs under their safe override, which a stand-in cannot reproduce. Sprint is used with a single operand (its separator depends on string-kindness, which the stand-in cannot preserve).",
+        "technique": "rapid property-based differential testing against a reference construction (stand-in SafeFormatter) with call-log invariants, per configuration",
+    },
     "C08": {
         "text": "Inductive closure under composition is checked on generated histories of print-then-reprint / join / embed steps over library-produced redactables: every step must be the literal concatenation of its pieces (identity for plain re-printing under any directive), and Redact/StripMarkers must distribute over it. Exploration; 40k histories per quick run, 2.4M per thorough run.",
         "design_ref": "DESIGN.md §4.8",
